@@ -60,6 +60,11 @@ def check_pair(a, b, kind, le, Ls):
         # contains gives the same answer when an argument is replaced by an equivalent one
         if L0.contains(ea, ea) != L0.contains(eb, ea) or L0.contains(ea, eb) != L0.contains(ea, ea):
             return 'contains distinguishes equivalent expressions', eq, co
+    # the same expressions over wrapped user objects (as parsed over a table of objects): same answers
+    la, lb = build_expr(a, like=True), build_expr(b, like=True)
+    for x, y in ((ea, lb), (la, eb), (la, lb)):
+        if L0.is_equivalent(x, y) != eq or L0.is_equivalent(y, x) != eq or L0.contains(x, y) != co:
+            return 'answer depends on how the symbols are represented (plain symbol / wrapped user object)', eq, co
     if co:
         sb = enc_expr(eb.simplify())
         if not set(algebra.atoms_of(sb)) <= atoms_dec(a):
